@@ -656,6 +656,48 @@ impl Everything {
     }
 }
 
+const OPTIONAL_KEYS: [&str; 40] = [
+    "owner", "new_owner", "fee_collector_addr", "pool_fees", "feature_toggle", "amp_factor", "token_code_id", "pair_code_id",
+    "trio_code_id", "incentive_factory_addr", "fee_distributor_addr", "create_flow_fee", "max_concurrent_flows", "incentive_code_id",
+    "max_flow_start_time_buffer", "min_unbonding_duration", "max_unbonding_duration", "vault_id", "token_id", "flash_loan_enabled",
+    "deposit_enabled", "withdraw_enabled", "new_vault_fees", "new_fee_collector_addr", "vault_factory_addr", "pool_router",
+    "fee_distributor", "pool_factory", "vault_factory", "take_rate", "take_rate_dao_address", "is_take_rate_active",
+    "bonding_contract_addr", "grace_period", "distribution_asset", "epoch_config", "unbonding_period", "growth_rate",
+    "cosmwasm_pool_interface", "code_id",
+];
+
+/// Leaves out optional fields of a JSON message according to the bits of `bits` (bit 0: the owner
+/// field names `caller` instead; the following bits: one per optional key met, in document order,
+/// 1 = set to null).
+fn reshape_payload(payload: &Binary, bits: u64, caller: &str) -> Binary {
+    fn walk(v: &mut serde_json::Value, bits: &mut u64, owner_to: Option<&str>, depth: u32) {
+        if depth > 4 {
+            return;
+        }
+        if let serde_json::Value::Object(m) = v {
+            for (k, val) in m.iter_mut() {
+                if OPTIONAL_KEYS.contains(&k.as_str()) {
+                    if (k == "owner" || k == "new_owner") && owner_to.is_some() {
+                        *val = serde_json::Value::String(owner_to.unwrap().to_string());
+                        continue;
+                    }
+                    let drop = *bits & 1 == 1;
+                    *bits >>= 1;
+                    if drop {
+                        *val = serde_json::Value::Null;
+                        continue;
+                    }
+                }
+                walk(val, bits, owner_to, depth + 1);
+            }
+        }
+    }
+    let Ok(mut v) = serde_json::from_slice::<serde_json::Value>(payload.as_slice()) else { return payload.clone() };
+    let mut b = bits >> 1;
+    walk(&mut v, &mut b, if bits & 1 == 1 { Some(caller) } else { None }, 0);
+    Binary::from(serde_json::to_vec(&v).unwrap_or_else(|_| payload.to_vec()))
+}
+
 #[derive(Clone, Debug, Serialize, Deserialize)]
 pub struct Case {
     pub entry: u16,
@@ -683,7 +725,7 @@ impl Check for PrivilegeMatrix {
         "privilege_matrix"
     }
     fn rule(&self) -> &'static str {
-        "hand-written table of every ExecuteMsg variant of 14 contracts (pool factory, pair, trio, router, frontend helper, incentive factory, incentive, vault factory, vault, vault router, fee collector, fee distributor, whale lair, epoch manager), verified at start-up against the variant names derived from the message schemas; every privileged / internal variant x ten caller roles (configured owner, hub owner account, prospective new owner, user, sibling contract, the contract itself, pool factory, vault factory, fee distributor, a registered vault) x {before, after an ownership transfer} is enumerated exhaustively as the regression corpus with the canonical payload and with payloads that name the caller itself / an unregistered asset where a message carries the identity it is checked against (vault-router NextLoan source_vault + asset, CompleteLoan initiator), and random payload details are drawn on top. Oracle: a caller outside the authorised set => rejected and full world snapshot unchanged; the authorised caller with the canonical payload => accepted (except migrations, whose payload is refused for version reasons); after a transfer the previous owner is rejected and the new owner accepted; AssertMinimumReceive is effect-free for every caller. Non-trivial: an unauthorised role was exercised; distinct by (variant, role, transfer, payload)."
+        "hand-written table of every ExecuteMsg variant of 14 contracts (pool factory, pair, trio, router, frontend helper, incentive factory, incentive, vault factory, vault, vault router, fee collector, fee distributor, whale lair, epoch manager), verified at start-up against the variant names derived from the message schemas; every privileged / internal variant x ten caller roles (configured owner, hub owner account, prospective new owner, user, sibling contract, the contract itself, pool factory, vault factory, fee distributor, a registered vault) x {before, after an ownership transfer} is enumerated exhaustively as the regression corpus with the canonical payload and with payloads that name the caller itself / an unregistered asset where a message carries the identity it is checked against (vault-router NextLoan source_vault + asset, CompleteLoan initiator), and random payload details are drawn on top; unauthorised attempts also come with reshaped payloads (any subset of the message's optional fields left out, down to the empty update, and the owner field naming the caller). Oracle: a caller outside the authorised set => rejected and full world snapshot unchanged; the authorised caller with the canonical payload => accepted (except migrations, whose payload is refused for version reasons); after a transfer the previous owner is rejected and the new owner accepted; AssertMinimumReceive is effect-free for every caller. Non-trivial: an unauthorised role was exercised; distinct by (variant, role, transfer, payload)."
     }
     fn strategy(&self, _tier: Tier) -> BoxedStrategy<Case> {
         let n = privileged_entries().len() as u16;
@@ -706,7 +748,7 @@ impl Check for PrivilegeMatrix {
                 for after_transfer in [false, true] {
                     // canonical payload, and the payload that names the caller itself together
                     // with an unregistered asset wherever the message carries such fields
-                    for payload in [0u64, (1 << 8) | (1 << 10), 1 << 8, 1 << 10, 2 << 8] {
+                    for payload in [0u64, (1 << 8) | (1 << 10), 1 << 8, 1 << 10, 2 << 8, (1 << 16) | (0x7FFF_FFFF << 18), (1 << 16) | (1 << 17), (1 << 16) | (1 << 17) | (0x7FFF_FFFF << 18)] {
                         out.push(Case {
                             entry: i as u16,
                             role,
@@ -761,6 +803,23 @@ impl Check for PrivilegeMatrix {
                 Some(p) => p,
                 None => return Err(Fail::new(format!("no payload for {:?}::{}", e.target, e.variant))),
             }
+        };
+        let authorised_probe = match e.kind {
+            Kind::Owner { .. } => caller == owner_now,
+            Kind::SelfOnly => caller == target,
+            Kind::DistributorOnly => caller == ev.addr(Target::Distributor),
+            Kind::RegisteredVault => caller == ev.vault,
+            Kind::CreatorOrFactoryOwner => caller == ev.flow_creator || caller == owner_now,
+            Kind::EffectFree | Kind::Permissionless => true,
+        };
+        // Unauthorised attempts also come with a reshaped payload: any subset of the message's
+        // optional fields left out (down to the empty update), and the owner field naming the caller —
+        // a sender check sitting inside one `if let Some(..)` arm, or after the owner assignment, is
+        // invisible to a payload that always carries the same fields.
+        let payload = if !authorised_probe && (c.payload >> 16) & 1 == 1 {
+            reshape_payload(&payload, c.payload >> 17, caller.as_str())
+        } else {
+            payload
         };
         let authorised = match e.kind {
             Kind::Owner { .. } => caller == owner_now,
